@@ -61,6 +61,16 @@ def run_check(prop, root, timeout=600, extra_env=None):
 	return p.returncode, p.stdout, time.time() - t0
 
 
+def run_suite(root):
+	"""The repository's own (baseline) Python tests on the scratch copy: a catalogue mutant is
+	only realistic if they still pass."""
+	py = os.environ.get("VERIF_PYTHON", "/venv/bin/python")
+	p = subprocess.run([py, "-m", "pytest", "-q", "-p", "no:cacheprovider", "-x",
+		"--deselect", "src/target/trx_toolkit/test_clck_gen.py::CLCKGen_Test::test_no_timing_error_accumulated",
+		"src/target/trx_toolkit"], cwd=root, stdout=subprocess.PIPE, stderr=subprocess.STDOUT, text=True, timeout=600)
+	return p.returncode == 0, p.stdout[-800:]
+
+
 def main(argv):
 	from mutants.catalogue import MUTANTS
 	props = set(a for a in argv if not a.startswith("-"))
@@ -88,6 +98,12 @@ def main(argv):
 		root = make_copy()
 		try:
 			apply_mutant(root, m)
+			if "--suite" in argv and any(e["file"].endswith(".py") for e in m["edits"]):
+				ok_suite, tail = run_suite(root)
+				if not ok_suite:
+					print("%-4s %-34s BASELINE SUITE FAILS with this mutant (not realistic)" % (m["prop"], m["id"]))
+					print(tail)
+					bad += 1
 			rc, out, dt = run_check(m["prop"], root)
 		finally:
 			shutil.rmtree(root, ignore_errors=True)
